@@ -88,6 +88,17 @@ def op_std(vt):
                [api.stack_effect(api.opmap["BUILD_TUPLE"], 3), api.stack_effect(api.opmap["POP_TOP"])]])
 
 
+def op_std_variant(vt, variant):
+    api = make_std_api(vt, variant)
+    return dg([sorted(api.opmap.items()), list(api.opname), api.is_pypy])
+
+
+def op_marsh_body(name):
+    data = open(FILES[name], "rb").read()[8:]
+    co = xmarsh.loads(data, "2.7")
+    return dg([repr(co.co_names), repr(co.co_varnames), [repr(getattr(c, "co_names", c)) for c in co.co_consts]])
+
+
 def op_marsh():
     v = (1, 2.5, "t\xe9xt", b"b", (None, True), [1, 2], {"k": None}, frozenset([1]), 2 ** 70)
     b = xmarsh.dumps(v)
@@ -116,6 +127,8 @@ OPS = {
     "opc27": lambda: op_table((2, 7)), "opc313": lambda: op_table((3, 13)), "opc36pypy": lambda: op_table((3, 6), True),
     "std36": lambda: op_std((3, 6)), "std312": lambda: op_std((3, 12)),
     "marsh": op_marsh, "loadcorrupt": op_bad, "importgraal": op_graal,
+    "std27": lambda: op_std_variant((2, 7), None), "std27pypy": lambda: op_std_variant((2, 7), "pypy"),
+    "marsh27a": lambda: op_marsh_body("f27"), "marsh27b": lambda: op_marsh_body("f27b"),
 }
 
 
